@@ -659,6 +659,12 @@ func mergeShiftedBytes(ps []Place) []Place {
 					break
 				}
 				what, sh := p.What, 0
+				// the truncation to a byte is what stores one octet of x
+				for _, pre := range []string{"uint8(", "byte("} {
+					if strings.HasPrefix(what, pre) && strings.HasSuffix(what, ")") {
+						what = what[len(pre) : len(what)-1]
+					}
+				}
 				if m := shiftedRe.FindStringSubmatch(what); m != nil {
 					what = m[1]
 					sh, _ = strconv.Atoi(m[2])
